@@ -873,7 +873,6 @@ func importScenarioRules(c *core.Ctx, p *load.Prog) {
 	c.Floor("import_scenarios", 4)
 }
 
-
 // colourDFS: the same discipline (R3) for the three-colour formulation of the
 // search: one map from node to state; the node is marked in-progress on entry
 // and given another state on every non-cycle exit; an edge into an in-progress
